@@ -355,6 +355,9 @@ class Wildcard(PatternQuery):
         if text == "*":
             from whoosh.query import Every
             return Every(self.fieldname, boost=self.boost)
+        if "[" in text:
+            # A glob character class ("[abc]", "[!a-c]"): leave it to fnmatch
+            return self
         if "*" not in text and "?" not in text:
             # If no wildcard chars, convert to a normal term.
             return Term(self.fieldname, self.text, boost=self.boost)
